@@ -30,6 +30,9 @@ ALWAYS_INLINE = {
     "staking::StakeKeeper::validate_percentage",
     "bank::coins_to_string",
     "staking::StakeKeeper::remove_staker",
+    "wasm::WasmKeeper::instance_count",
+    "transactions::RepLog::append",
+    "prefixed_storage::namespace_helpers::trim",
 }
 
 
@@ -402,6 +405,7 @@ COMBINATORS = {
     "std::result::Result::and_then": ("std::result::Result", "Ok", "raw", "Err"),
     "std::result::Result::map_err": ("std::result::Result", "Err", "wrap:Err", "Ok"),
     "std::option::Option::map_or": ("std::option::Option", "Some", "raw", "default"),
+    "std::option::Option::map_or_else": ("std::option::Option", "Some", "raw", "default-closure"),
 }
 VARIANTS = {"std::option::Option": [[0, "None"], [1, "Some"]], "std::result::Result": [[0, "Ok"], [1, "Err"]]}
 
@@ -422,6 +426,7 @@ class Desugarer:
     def __init__(self, inliner):
         self.inl = inliner
         self.report = []
+        self.extra_gone = []
 
     def _closure_of(self, c, op):
         if op.get("k") not in ("copy", "move") or op["place"]["p"]:
@@ -546,6 +551,17 @@ class Desugarer:
         enum, takes, hit, miss = COMBINATORS[t["callee"]["key"]]
         args = t["args"]
         default_op = None
+        default_cl = None
+        if miss == "default-closure":
+            # x.map_or_else(default_closure, closure): the default closure runs on the None arm
+            if len(args) != 3:
+                return False
+            dk = self._closure_of(c, args[1])
+            default_cl = self.inl.by_key.get(dk) if dk else None
+            if default_cl is None or default_cl["arg_count"] != 1:
+                return False
+            dcl_local = args[1]["place"]["l"]
+            args = [args[0], args[2]]
         if miss == "default":
             # x.map_or(default, closure)
             if len(args) != 3:
@@ -614,18 +630,30 @@ class Desugarer:
                 rv_other = {"k": "aggregate", "agg": "adt", "adt": "std::result::Result", "variant": "Ok", "fields": ["0"], "ops": [_mv(n_x, *_payload_proj("Some", enum))]}
         else:
             rv_after = rv_hit
-            if default_op is not None:
+            if default_cl is not None:
+                rv_other = None
+            elif default_op is not None:
                 rv_other = {"k": "use", "op": default_op}
             elif miss_variant == "None":
                 rv_other = agg("None", None)
             else:
                 rv_other = agg(miss_variant, _mv(n_x, *_payload_proj(miss_variant, enum)))
+        bm_blk = {"id": BM, "stmts": [asg(copy.deepcopy(dst), rv_other)] if rv_other is not None else [], "term": {"k": "goto", "target": target, "line": line}}
+        if default_cl is not None:
+            n_env2 = len(c["locals"])
+            c["locals"].append({"s": "{closure}"})
+            bm_blk["stmts"] = [asg(_pl(n_env2), {"k": "use", "op": _mv(dcl_local)})]
+            bm_blk["term"] = {"k": "call", "callee": {"key": default_cl["key"], "local": True, "name": "call_once", "gargs": [], "inputs": [], "output": default_cl["locals"][0]["s"]},
+                              "args": [_mv(n_env2)], "dst": copy.deepcopy(dst), "target": target, "line": line}
         blocks = [bh,
-                  {"id": BM, "stmts": [asg(copy.deepcopy(dst), rv_other)], "term": {"k": "goto", "target": target, "line": line}},
+                  bm_blk,
                   {"id": BR, "stmts": [asg(copy.deepcopy(dst), rv_after)], "term": {"k": "goto", "target": target, "line": line}},
                   {"id": BU, "stmts": [], "term": {"k": "unreachable", "line": line}}]
         c["blocks"].extend(blocks)
         self.inl.splice(c, bh, cl)
+        if default_cl is not None:
+            self.inl.splice(c, bm_blk, default_cl)
+            self.extra_gone.append(default_cl["key"])
         self.report.append((t["callee"]["name"], c["key"], line))
         return ck
 
@@ -651,6 +679,7 @@ class Desugarer:
                         if ck:
                             gone.add(ck)
                             progress = True
+        gone |= set(self.extra_gone)
         if gone:
             def dead(k):
                 return any(k == g or k.startswith(g + "::{closure#") for g in gone)
@@ -879,6 +908,98 @@ def known_signatures():
     return _SIGS
 
 
+def thread_bool_temps(c, max_region=30):
+    """A15: `matches!(..)`, `let flag = <match producing true/false>; if flag`, and the `false` / `true` short-circuit arm
+    of `&&` / `||` all park a constant in a bool temporary and branch on it after a join.  Each block that assigns the
+    constant is redirected straight to the successor that constant selects (the join and the branch are duplicated for
+    it), so that dominance sees the conditions that led to the constant."""
+    by_id = {b["id"]: b for b in c["blocks"]}
+    n = 0
+    # split so that `x = const bool` ends its block
+    for b in list(c["blocks"]):
+        for i, st in enumerate(b["stmts"]):
+            if i < len(b["stmts"]) - 1 and st["k"] == "assign" and not st["dst"]["p"] and st["rv"]["k"] == "use" and st["rv"]["op"].get("k") == "const" and \
+                    st["rv"]["op"].get("ck") == "bool" and c["locals"][st["dst"]["l"]].get("s") == "bool":
+                nid = max(by_id) + 1
+                nb = {"id": nid, "stmts": b["stmts"][i + 1:], "term": b["term"]}
+                b["stmts"] = b["stmts"][:i + 1]
+                b["term"] = {"k": "goto", "target": nid, "line": st.get("line", 0)}
+                c["blocks"].append(nb)
+                by_id[nid] = nb
+                break
+    sites = []
+    for b in c["blocks"]:
+        if b["term"]["k"] == "goto" and b["stmts"]:
+            st = b["stmts"][-1]
+            if st["k"] == "assign" and not st["dst"]["p"] and st["rv"]["k"] == "use" and st["rv"]["op"].get("k") == "const" and st["rv"]["op"].get("ck") == "bool":
+                sites.append((b, st["dst"]["l"], st["rv"]["op"]["int"]))
+    for b, l0, val in sites:
+        start = b["term"]["target"]
+        region, ms = [], []
+        seen = set()
+        stack = [start]
+        ok = True
+        tracked = {l0}
+        while stack and ok:
+            x = stack.pop()
+            if x in seen:
+                continue
+            seen.add(x)
+            xb = by_id.get(x)
+            if xb is None or x == b["id"]:
+                ok = False
+                break
+            t = xb["term"]
+            if t["k"] == "unreachable":
+                continue
+            # plain moves of the tracked value
+            for st in xb["stmts"]:
+                if st["k"] == "assign" and not st["dst"]["p"] and st["rv"]["k"] == "use" and st["rv"]["op"].get("k") in ("copy", "move") and \
+                        not st["rv"]["op"]["place"]["p"] and st["rv"]["op"]["place"]["l"] in tracked:
+                    tracked.add(st["dst"]["l"])
+                elif st["dst"]["l"] in tracked:
+                    ok = False
+            if not ok:
+                break
+            if t["k"] == "switch" and "discr_of" not in t and t.get("discr_ty") == "bool" and t["discr"].get("k") in ("copy", "move") and \
+                    not t["discr"]["place"]["p"] and t["discr"]["place"]["l"] in tracked:
+                ms.append(xb)
+                continue
+            if t["k"] in ("call", "return", "tailcall", "other", "switch"):
+                ok = False
+                break
+            region.append(xb)
+            if len(region) > max_region:
+                ok = False
+                break
+            stack.extend(_succs(xb))
+        if not ok or not ms:
+            continue
+        base = max(by_id) + 1
+        idmap = {xb["id"]: base + k for k, xb in enumerate(region + ms)}
+
+        def bm(x):
+            return idmap.get(x, x)
+        for xb in region + ms:
+            q = copy.deepcopy(xb)
+            q["id"] = idmap[xb["id"]]
+            t2 = q["term"]
+            k2 = t2["k"]
+            if xb in ms:
+                tgt = t2["otherwise"]
+                for v, bb, nm in t2["targets"]:
+                    if (v != 0) == bool(val):
+                        tgt = bb
+                q["term"] = {"k": "goto", "target": tgt, "line": t2.get("line", 0), "threaded": "bool:%s" % val}
+            elif k2 in ("goto", "drop", "assert"):
+                t2["target"] = bm(t2["target"])
+            c["blocks"].append(q)
+            by_id[q["id"]] = q
+        b["term"]["target"] = bm(start)
+        n += 1
+    return n
+
+
 def normalise(data, known_keys):
     """splice new private helpers of data['functions'] into their callers; returns a report dict"""
     renamed = match_renames(data, known_keys)
@@ -889,7 +1010,7 @@ def normalise(data, known_keys):
     for d in data["functions"]:
         if not d.get("derived"):
             for _ in range(4):
-                k = thread_function(d)
+                k = thread_function(d) + thread_bool_temps(d)
                 threaded += k
                 if not k:
                     break
